@@ -260,11 +260,15 @@ let () =
 (* sym i1 name1 i2 name2 : in the model a variable is its id (nat); the name is what Display prints *)
 let op_sym (args : sx) : string =
   match args with
-  | L [i1; n1; i2; _] ->
-      let a = nat_atom i1 and b = nat_atom i2 in
-      let eq = Nat.eqb a b in
-      let cmp = if eq then "eq" else if Nat.ltb a b then "lt" else "gt" in
-      Printf.sprintf "(ok %d %s %s 1 %d %d %s)" (if eq then 1 else 0) cmp cmp (if eq then 1 else 0) (int_of_nat a) (show_name (name_of_sx n1))
+  | L [A i1; n1; A i2; _] ->
+      (* ids up to 2^64-1: small ones are compared by the extracted Nat.eqb / Nat.ltb (the comparisons the model's operations use),
+         large ones as decimal numerals *)
+      let small s = String.length s <= 4 in
+      let (eq, lt) =
+        if small i1 && small i2 then (let a = nat_of_int (int_of_string i1) and b = nat_of_int (int_of_string i2) in (Nat.eqb a b, Nat.ltb a b))
+        else (i1 = i2, (String.length i1 < String.length i2) || (String.length i1 = String.length i2 && compare i1 i2 < 0)) in
+      let cmp = if eq then "eq" else if lt then "lt" else "gt" in
+      Printf.sprintf "(ok %d %s %s 1 %d %s %s)" (if eq then 1 else 0) cmp cmp (if eq then 1 else 0) i1 (show_name (name_of_sx n1))
   | _ -> raise (Bad "sym")
 let classify_sym (_ : sx) (real : string) (_ : string) : string = if real = "(panic)" then "panic" else "symbol"
 
